@@ -74,7 +74,7 @@ func (f *FragmentBuffer) AdvanceTo(messageSequence uint16) {
 // when it returns true it means the fragmentBuffer has inserted and the buffer shouldn't be handled
 // when an error returns it is fatal, and the DTLS connection should be stopped.
 func (f *FragmentBuffer) Push(buf []byte) (isHandshake, isRetransmit bool, err error) {
-	if f.size()+len(buf) >= fragmentBufferMaxSize || f.totalFragmentCount >= fragmentBufferMaxCount {
+	if len(buf) >= fragmentBufferMaxSize {
 		return false, false, dtlserrors.ErrFragmentBufferOverflow
 	}
 
@@ -86,6 +86,13 @@ func (f *FragmentBuffer) Push(buf []byte) (isHandshake, isRetransmit bool, err e
 	// fragment isn't a handshake, we don't need to handle it
 	if recordLayerHeader.ContentType != protocol.ContentTypeHandshake {
 		return false, false, nil
+	}
+
+	// Only a handshake record can be refused for lack of room: a buffer that
+	// somebody filled with fragments must not make the connection drop its
+	// application data, alerts and acknowledgements as well.
+	if f.size()+len(buf) >= fragmentBufferMaxSize || f.totalFragmentCount >= fragmentBufferMaxCount {
+		return false, false, dtlserrors.ErrFragmentBufferOverflow
 	}
 
 	headerSize := recordLayerHeader.Size()
